@@ -422,9 +422,9 @@ theorem seqNext_down_interval (m : TickMap) (arrays : List Int) (ts : Nat) (hts 
     ∀ (fuel idx : Nat) (s start : Int), arrays[idx]? = some start → start ≤ s → s < start + 88 * (ts : Int) →
       MIN_TICK_INDEX ≤ s → fuel + idx ≥ arrays.length →
       ∃ i r, seqNextInit m arrays ts true fuel s idx = .ok (i, r) ∧ idx ≤ i ∧ r ≤ s ∧
-        (∃ st, arrays[i]? = some st ∧ st ≤ r ∧ r < st + 88 * (ts : Int) ∨ (st ≤ MIN_TICK_INDEX ∧ r = MIN_TICK_INDEX)) ∧
+        (∃ st, arrays[i]? = some st ∧ st ≤ r ∧ r < st + 88 * (ts : Int)) ∧
         (∀ x, r < x → x ≤ s → x % (ts : Int) = 0 → initAt m x = false) ∧
-        (initAt m r = true ∨ r = MIN_TICK_INDEX ∨ (∃ st, arrays[i]? = some st ∧ r = st ∧ i + 1 = arrays.length)) := by
+        (initAt m r = true ∨ r = MIN_TICK_INDEX ∨ (∃ st, arrays[i]? = some st ∧ r = st ∧ i + 1 = arrays.length ∧ MIN_TICK_INDEX < st)) := by
   have hT : ((TICK_ARRAY_SIZE : Nat) : Int) = 88 := rfl
   intro fuel
   induction fuel with
@@ -450,7 +450,7 @@ theorem seqNext_down_interval (m : TickMap) (arrays : List Int) (ts : Nat) (hts 
     cases r0 with
     | some t =>
       obtain ⟨ht1, ⟨j, hj88, hj⟩, ht3, ht4⟩ := hans
-      refine ⟨idx, t, rfl, Nat.le_refl _, ht1, ⟨start, Or.inl ⟨hidx, ?_, ?_⟩⟩, ?_, Or.inl ht3⟩
+      refine ⟨idx, t, rfl, Nat.le_refl _, ht1, ⟨start, hidx, ?_, ?_⟩, ?_, Or.inl ht3⟩
       · rw [hj]; have : (0 : Int) ≤ (j : Int) * ts := Int.mul_nonneg (by omega) (by omega); omega
       · rw [hj]
         have : (j : Int) * ts < 88 * (ts : Int) := by
@@ -472,13 +472,13 @@ theorem seqNext_down_interval (m : TickMap) (arrays : List Int) (ts : Nat) (hts 
       simp only [Bool.true_and, Bool.not_true, Bool.false_and, Bool.false_eq_true, if_false, hT]
       by_cases hmin : start ≤ MIN_TICK_INDEX
       · simp only [hmin, decide_true, if_true]
-        refine ⟨idx, MIN_TICK_INDEX, rfl, Nat.le_refl _, hms, ⟨start, Or.inr ⟨hmin, rfl⟩⟩, ?_, Or.inr (Or.inl rfl)⟩
+        refine ⟨idx, MIN_TICK_INDEX, rfl, Nat.le_refl _, hms, ⟨start, hidx, hmin, by omega⟩, ?_, Or.inr (Or.inl rfl)⟩
         intro x hx1 hx2 hx3
         exact hnone x (by omega) hx2 hx3
       · simp only [hmin, decide_false, Bool.false_eq_true, if_false]
         by_cases hlast : idx + 1 = arrays.length
         · simp only [hlast, if_true]
-          refine ⟨idx, start, rfl, Nat.le_refl _, h1, ⟨start, Or.inl ⟨hidx, Int.le_refl _, by omega⟩⟩, ?_, Or.inr (Or.inr ⟨start, hidx, rfl, hlast⟩)⟩
+          refine ⟨idx, start, rfl, Nat.le_refl _, h1, ⟨start, hidx, Int.le_refl _, by omega⟩, ?_, Or.inr (Or.inr ⟨start, hidx, rfl, hlast, by omega⟩)⟩
           intro x hx1 hx2 hx3
           exact hnone x (by omega) hx2 hx3
         · simp only [hlast, if_false]
@@ -512,8 +512,9 @@ theorem seqNext_up_interval (m : TickMap) (arrays : List Int) (ts : Nat) (hts : 
     ∀ (fuel idx : Nat) (s start : Int), arrays[idx]? = some start → start - (ts : Int) ≤ s → s < start + 88 * (ts : Int) - ts →
       s < MAX_TICK_INDEX → fuel + idx ≥ arrays.length →
       ∃ i r, seqNextInit m arrays ts false fuel s idx = .ok (i, r) ∧ idx ≤ i ∧ s < r ∧
+        (∃ st, arrays[i]? = some st ∧ st - (ts : Int) < r ∧ r < st + 88 * (ts : Int)) ∧
         (∀ x, s < x → x < r → x % (ts : Int) = 0 → initAt m x = false) ∧
-        (initAt m r = true ∨ r = MAX_TICK_INDEX ∨ (∃ st, arrays[i]? = some st ∧ r = st + 88 * (ts : Int) - 1 ∧ i + 1 = arrays.length)) := by
+        (initAt m r = true ∨ r = MAX_TICK_INDEX ∨ (∃ st, arrays[i]? = some st ∧ r = st + 88 * (ts : Int) - 1 ∧ i + 1 = arrays.length ∧ st + 88 * (ts : Int) ≤ MAX_TICK_INDEX)) := by
   have hT : ((TICK_ARRAY_SIZE : Nat) : Int) = 88 := rfl
   intro fuel
   induction fuel with
@@ -539,7 +540,9 @@ theorem seqNext_up_interval (m : TickMap) (arrays : List Int) (ts : Nat) (hts : 
     cases r0 with
     | some t =>
       obtain ⟨ht1, ⟨j, hj88, hj⟩, ht3, ht4⟩ := hans
-      refine ⟨idx, t, rfl, Nat.le_refl _, ht1, ?_, Or.inl ht3⟩
+      have hjlt : (j : Int) * ts < 88 * (ts : Int) := Int.mul_lt_mul_of_pos_right (by omega) htsI
+      have hjge : (0 : Int) ≤ (j : Int) * ts := Int.mul_nonneg (by omega) (by omega)
+      refine ⟨idx, t, rfl, Nat.le_refl _, ht1, ⟨start, hidx, by omega, by omega⟩, ?_, Or.inl ht3⟩
       intro x hx1 hx2 hx3
       have hxt : x < start + 88 * (ts : Int) := by
         rw [hj] at hx2
@@ -555,22 +558,22 @@ theorem seqNext_up_interval (m : TickMap) (arrays : List Int) (ts : Nat) (hts : 
       simp only [Bool.false_and, Bool.false_eq_true, if_false, Bool.not_false, Bool.true_and, hT]
       by_cases hmax : start + 88 * (ts : Int) > MAX_TICK_INDEX
       · simp only [hmax, decide_true, if_true]
-        refine ⟨idx, MAX_TICK_INDEX, rfl, Nat.le_refl _, hmx, ?_, Or.inr (Or.inl rfl)⟩
+        refine ⟨idx, MAX_TICK_INDEX, rfl, Nat.le_refl _, hmx, ⟨start, hidx, by omega, by omega⟩, ?_, Or.inr (Or.inl rfl)⟩
         intro x hx1 hx2 hx3
         exact hnone x hx1 (by omega) hx3
       · simp only [hmax, decide_false, Bool.false_eq_true, if_false]
         by_cases hlast : idx + 1 = arrays.length
         · simp only [hlast, if_true]
-          refine ⟨idx, start + 88 * (ts : Int) - 1, rfl, Nat.le_refl _, by omega, ?_, Or.inr (Or.inr ⟨start, hidx, rfl, hlast⟩)⟩
+          refine ⟨idx, start + 88 * (ts : Int) - 1, rfl, Nat.le_refl _, by omega, ⟨start, hidx, by omega, by omega⟩, ?_, Or.inr (Or.inr ⟨start, hidx, rfl, hlast, by omega⟩)⟩
           intro x hx1 hx2 hx3
           exact hnone x hx1 (by omega) hx3
         · simp only [hlast, if_false]
           have hnext : idx + 1 < arrays.length := by omega
           have hget : arrays[idx + 1]? = some arrays[idx + 1] := List.getElem?_eq_getElem hnext
           have hst' := hc idx start _ hidx hget
-          obtain ⟨i, r, hrun, hi, hrs, hno, hkind⟩ :=
+          obtain ⟨i, r, hrun, hi, hrs, hloc, hno, hkind⟩ :=
             ih (idx + 1) (start + 88 * (ts : Int) - 1) arrays[idx + 1] hget (by omega) (by omega) (by omega) (by omega)
-          refine ⟨i, r, hrun, by omega, by omega, ?_, hkind⟩
+          refine ⟨i, r, hrun, by omega, by omega, hloc, ?_, hkind⟩
           intro x hx1 hx2 hx3
           by_cases hxs : x < start + 88 * (ts : Int)
           · exact hnone x hx1 hxs hx3
